@@ -15,7 +15,7 @@ from ..simsched import SimWorld, SimUnsupported
 PROPERTY_ID = "C14"
 LEVEL = "exploration"
 RULE = (
-    "case = (depth 1..3 (thorough 4), sparse FITS leaf population F32/F64 written by toasty - directly or painted in two passes "
+    "case = (depth 0..3 (thorough 4), sparse FITS leaf population F32/F64/U8/I16/I32 written by toasty - directly or painted in two passes "
     "through the read-modify-write interface -, leaf values small integers shifted by a generated offset (so that ranges contain "
     "exact zeros, negative and large values) with generated NaN rectangles, optional tile filter, worker count k, schedule). The "
     "pyramid is cascaded through Builder.cascade() (serial, Engine A for k>=2, real multiprocessing in part realmp) and "
@@ -226,13 +226,16 @@ def strat_tile_fits_toast(draw, tier):
     return {"images": imgs, "start": draw(st.integers(1, 3))}
 
 
+FITS_MODES = ["F32", "F32", "F64", "F64", "U8", "I16", "I32"]
+
+
 def strat(tier):
-    return cc.cascade_cases(tier, formats=["fits"], want_range=True)
+    return cc.cascade_cases(tier, formats=["fits"], want_range=True, modes=FITS_MODES, depth0=True)
 
 
 @st.composite
 def strat_real(draw, tier):
-    case = draw(cc.cascade_cases(tier, formats=["fits"], want_range=True))
+    case = draw(cc.cascade_cases(tier, formats=["fits"], want_range=True, modes=FITS_MODES))
     case["k"] = draw(st.sampled_from([2, 3, 4]))
     case.pop("sched", None)
     return case
